@@ -43,7 +43,11 @@ class Gen:
         import io
         with contextlib.redirect_stdout(io.StringIO()):
             self.dmx = DemultiplexingStrategyLoader(barcodeParser=self.bp, indexParser=self.ip, indexFileAlias=self.index_alias)
+            # the same strategies built without a sequencing-index parser: the only configuration that accepts headers
+            # without an index (10-/7-field Illumina, empty index)
+            self.dmx0 = DemultiplexingStrategyLoader(barcodeParser=self.bp, indexParser=None, indexFileAlias=None)
         self.strategies = list(self.dmx.demultiplexingStrategies)
+        self.strategies0 = {st.shortName: st for st in self.dmx0.demultiplexingStrategies}
         idx = list(self.ip[self.index_alias].keys())
         self.single_idx = sorted(i for i in idx if '+' not in i)
         self.dual_idx = sorted(i for i in idx if '+' in i)
@@ -84,6 +88,16 @@ class Gen:
         coords = ':'.join([f['is'], f['rn'], f['fc'], f['la'], f['ti'], f['cx'], f['cy']])
         if hv == 'illumina11':
             return '@%s %d:%s:%s:%s' % (coords, mate + 1, f['fi'], f['cn'], f['idx'])
+        if hv == 'illumina11e':     # index field present but empty
+            return '@%s %d:%s:%s:' % (coords, mate + 1, f['fi'], f['cn'])
+        if hv == 'illumina10':      # no index field
+            return '@%s %d:%s:%s' % (coords, mate + 1, f['fi'], f['cn'])
+        if hv == 'illumina10cc':    # no index, trailing '::'
+            return '@%s %d:%s:%s::' % (coords, mate + 1, f['fi'], f['cn'])
+        if hv == 'illumina7':       # bare coordinates (SRA style); filter flag and control number become the integer 0
+            return '@' + coords
+        if hv == '3dec':
+            return '@Cluster_s_%s_%s_%d' % (f['la'], f['ti'], mate + 1)
         if hv == 'scmo':      # an already demultiplexed header is accepted as input as well
             return '@Is:%s;RN:%s;Fc:%s;La:%s;Ti:%s;CX:%s;CY:%s;Fi:%s;CN:%s;aa:%s;aA:%s;aI:%s' % (
                 f['is'], f['rn'], f['fc'], f['la'], f['ti'], f['cx'], f['cy'], f['fi'], f['cn'], f['idx'], f['idx'], '7')
@@ -93,7 +107,7 @@ class Gen:
         r = self.rng
         tok = lambda n: ''.join(r.choice(SAFE) for _ in range(n))
         idx = {'single': r.choice(self.single_idx), 'dual': r.choice(self.dual_idx) if self.dual_idx else r.choice(self.single_idx),
-               'int': str(r.randint(1, 96))}[idx_kind]
+               'int': str(r.randint(1, 96)), 'none': ''}[idx_kind]
         return {'is': r.choice(['NS500414', 'M00123', 'HWI-ST1234', 'A00_12-x']) if r.random() < 0.7 else tok(r.randint(1, 10)),
                 'rn': str(r.randint(1, 999)), 'fc': r.choice(['H7YVNBGXC', '000000000-ABCDE', tok(9)]),
                 'la': str(r.randint(1, 8)), 'ti': str(r.randint(1101, 2678)), 'cx': str(r.randint(1, 30000)),
@@ -196,7 +210,7 @@ def replay(out, ev):
                 e['raised'] = type(ex).__name__
             f.write(json.dumps(e) + '\n')
             return
-        st = [s for s in g.strategies if s.shortName == ev['strategy']][0]
+        st = g.strategies0[ev['strategy']] if not ev.get('ixp', True) else [s for s in g.strategies if s.shortName == ev['strategy']][0]
         recs = [g.FastqRecord(h, s, '+', q) for h, s, q in ev['reads']]
         base = dict(ev)
         base.update(raised='', refused=False, stored=False, digested=False, digest_raised='', dt=[], dt_types=[], header=[], bt=[],
@@ -221,9 +235,12 @@ def main():
     def emit(e):
         f.write(json.dumps(e, separators=(',', ':')) + '\n')
 
-    def blank(st, hv, fld, lib, mode, umi, umiq):
+    def blank(st, hv, fld, lib, mode, umi, umiq, ixp=True):
         tid[0] += 1
-        return {'ev': 'pair', 'tid': tid[0], 'strategy': st.shortName, 'hv': hv, 'mode': mode, 'mate': 0,
+        fld = dict(fld)
+        if hv in ('illumina7', '3dec'):      # the header carries neither filter flag nor control number
+            fld['fi'] = fld['cn'] = ''
+        return {'ev': 'pair', 'tid': tid[0], 'strategy': st.shortName, 'hv': hv, 'mode': mode, 'mate': 0, 'ixp': ixp,
                 'in': {k: codes(v) for k, v in fld.items()}, 'ly': codes(lib),
                 'umi_in': codes(umi) if umi is not None else [], 'umiq_in': codes(umiq) if umiq is not None else [],
                 'umi_known': umi is not None, 'raised': '', 'refused': False, 'stored': False, 'digested': False,
@@ -280,6 +297,30 @@ def main():
                 ok = ok or evs[0]['raised'] == ''
         (reachable if ok else unreachable).append(st.shortName)
 
+    # (2b) no sequencing-index parser: every header variant the parser then accepts (index, empty index, 10 fields with and
+    #      without '::', bare 7 fields, 3-DEC); and an empty library name with the index parser
+    sub = [st for i, st in enumerate(g.strategies) if st.shortName in reachable and (tier != 'quick' or i % 3 == 0)]
+    for st in sub:
+        st0 = g.strategies0[st.shortName]
+        for rep in range(1 if tier == 'quick' else 4):
+            for hv, ik in [('illumina11', 'single'), ('illumina11e', 'none'), ('illumina10', 'none'), ('illumina10cc', 'none'),
+                           ('illumina7', 'none'), ('3dec', 'none')]:
+                fld = g.fields(ik)
+                c = rng.choice(phreds)
+                recs, umi, umiq = g.build(st0, uniform(c), hv, fld, single_end(st0))
+                if recs is None:
+                    continue
+                lib = ''.join(rng.choice(SAFE) for _ in range(rng.randint(1, 30)))
+                for e in roundtrip(g, st0, recs, lib, blank(st0, hv, fld, lib, 'noindexparser', umi, umiq, ixp=False)):
+                    e['uq'] = ord(c)
+                    emit(e)
+        fld = g.fields('single')
+        recs, umi, umiq = g.build(st, uniform('F'), 'illumina11', fld, single_end(st))
+        if recs is not None:
+            for e in roundtrip(g, st, recs, '', blank(st, 'illumina11', fld, '', 'emptylibrary', umi, umiq)):
+                e['uq'] = ord('F')
+                emit(e)
+
     # (3) all 94 phred characters inside the UMI (per-position qualities), on the plain-layout strategies
     plain = [st for st in g.strategies if st.shortName in reachable and g.layouts(st) and g.layouts(st)[0] is st]
     for c in [x for x in range(33, 127) for _ in range(1 if tier == 'quick' else 3)]:
@@ -301,10 +342,14 @@ def main():
         sts = [st for st in plain if not single_end(st)]
         for i, s in enumerate(scn):
             st = sts[i % len(sts)]
-            fld = g.fields('dual' if 43 in s['idx'] else 'single')
+            noidx = len(s['idx']) == 0          # model: empty index text, no corrected index -> realised without index parser
+            if noidx:
+                st = g.strategies0[st.shortName]
+            fld = g.fields('none' if noidx else ('dual' if 43 in s['idx'] else 'single'))
             uq = [chr(x) for x in s['uq']]
             q = lambda m, p: uq[p % len(uq)]
-            recs, umi, umiq = g.build(st, q, 'illumina11', fld, False)
+            hv = 'illumina11e' if noidx else 'illumina11'
+            recs, umi, umiq = g.build(st, q, hv, fld, False)
             if recs is None:
                 continue
             pat = ''.join(chr(x) for x in s['ly'])
@@ -312,7 +357,7 @@ def main():
             if lib is None:
                 continue
             lib = (pat + lib)[:len(lib)]
-            for e in roundtrip(g, st, recs, lib, blank(st, 'illumina11', fld, lib, 'scenario', umi, umiq)):
+            for e in roundtrip(g, st, recs, lib, blank(st, hv, fld, lib, 'scenario', umi, umiq, ixp=not noidx)):
                 e['uq'] = 0
                 emit(e)
 
